@@ -264,9 +264,9 @@ def make_walks(edges, init_state, seed=0, max_walk=400):
     return walks, len(ids), sum(len(v) for v in out.values())
 
 
-def write_requests(path, walks, meaning, proj=True):
+def write_requests(path, walks, meaning, proj=True, extra_hdr=None):
     with open(path, "w") as f:
-        f.write(json.dumps({"hdr": True, "meaning": meaning, "proj": proj}) + "\n")
+        f.write(json.dumps(dict({"hdr": True, "meaning": meaning, "proj": proj}, **(extra_hdr or {}))) + "\n")
         first = True
         for w in walks:
             if not first:
@@ -302,7 +302,7 @@ def split_requests(path, nchunks, d):
         chunks.append(acc)
     files = []
     for i, ch in enumerate(chunks):
-        p = os.path.join(d, f"req_{i}.ndjson")
+        p = os.path.join(d, os.path.basename(path)[:-len(".ndjson")] + f"_{i}.ndjson")
         with open(p, "w") as f:
             f.write(hdr + "\n")
             for j, w in enumerate(ch):
